@@ -523,6 +523,43 @@ Section Run.
         end
     end.
 
+  (* ---- apply-time mutation: the source lookup ------------------------------------
+     ApplyTimeMutator.Mutate, for each substitution in annotation order: REST mapping of the
+     source (getMapping), then getObject: the run's resource cache is used only when the entry
+     has a body AND says Current; otherwise a GET through the dynamic client (the next GET of
+     that object: same counter and fault address as every other GET of it).  A rejected GET fails
+     the mutation and leaves the cache alone; NotFound is Put into the cache (no body) and fails
+     the mutation; a found object is Put with the status kstatus computes for it (u_gcur) and
+     the loop goes on.  The substitution itself is not modelled.  Returns ok. *)
+  Fixpoint cache_get (c : list sobs) (i : id) : sobs :=
+    match c with
+    | [] => mkS i SUnknown false 0%N 0%Z
+    | x :: t => if Nat.eqb (s_id x) i then x else cache_get t i
+    end.
+
+  Definition mut_source (s : rst) (j : id) : rst * bool :=
+    if negb (kind_known (r_known s) j) then (s, false) else
+    let ob := cache_get (r_cache s) j in
+    if s_body ob && kst_eqb (s_st ob) SCurrent then (s, true) else
+    let '(s1, g) := get_obj s j in
+    match g with
+    | GFault => (s1, false)
+    | GNotFound => (set_cache s1 (mkS j SNotFound false 0%N 0%Z :: r_cache s1), false)
+    | GFound c =>
+        (set_cache s1 (mkS j (if u_gcur (uinfo_of sc j) then SCurrent else SInProgress) true (c_uid c) harness_gen
+                       :: r_cache s1), true)
+    end.
+
+  Fixpoint mut_sources (s : rst) (js : list id) : rst * bool :=
+    match js with
+    | [] => (s, true)
+    | j :: t => let '(s1, ok) := mut_source s j in if ok then mut_sources s1 t else (s1, false)
+    end.
+
+  (* ApplyTask.mutate: only a manifest that carries the mutation annotation has sources *)
+  Definition mutate (s : rst) (l : lobj) : rst * bool :=
+    if l_mut l then mut_sources s (l_deps l) else (s, true).
+
   Definition apply_one (pl : plan) (g : gname) (s : rst) (p : pobj) : rst :=
     match p_local p with
     | None => s
@@ -539,7 +576,10 @@ Section Run.
         | FFatal => rec_add (ev s1 (EApply g i AFail)) i SApply AFailed 0%N 0%Z
         | FSkip => rec_add (ev s1 (EApply g i ASkip)) i SApply ASkipped 0%N 0%Z
         | FPass =>
-            let '(s2, r) := kubectl_apply s1 l in
+            (* a.mutate between the filters and kubectl apply: on error ApplyFailed + AddFailedApply, no request *)
+            let '(sm, okm) := mutate s1 l in
+            if negb okm then rec_add (ev sm (EApply g i AFail)) i SApply AFailed 0%N 0%Z else
+            let '(s2, r) := kubectl_apply sm l in
             match r with
             | Some u => rec_add (ev s2 (EApply g i AOk)) i SApply ASucceeded u harness_gen
             | None => rec_add (ev s2 (EApply g i AFail)) i SApply AFailed 0%N 0%Z
@@ -629,12 +669,6 @@ Section Run.
 
   (* ---- wait task ---------------------------------------------------------- *)
   Inductive wcond := AllCurrent | AllNotFound.
-
-  Fixpoint cache_get (c : list sobs) (i : id) : sobs :=
-    match c with
-    | [] => mkS i SUnknown false 0%N 0%Z
-    | x :: t => if Nat.eqb (s_id x) i then x else cache_get t i
-    end.
 
   Definition changed_uid (s : rst) (i : id) : bool :=
     match lookup Nat.eqb (r_tbl s) i with
